@@ -411,7 +411,7 @@ func prepareCall(fr *frame, call *ssa.CallCommon) (fn value, args []value) {
 		// Interface method invocation.
 		recv := v.(iface)
 		if recv.t == nil {
-			panic("method invoked on nil interface")
+			panic(fmt.Sprintf("method invoked on nil interface: %s in %s%s", call.Method.Name(), fr.fn, loc(fr.i.prog.Fset, call.Pos())))
 		}
 		if f := lookupMethod(fr.i, recv.t, call.Method); f == nil {
 			// Unreachable in well-typed programs.
